@@ -3,7 +3,7 @@ from tools.krun import Harness
 
 PROPERTY = "C16"
 UNITS = []
-PRELUDE = []
+PRELUDE = ["lemmas.rs"]   # Verus lemma over the contracts (no code units)
 M = "backend::hotcold::verif_kani::"
 HC = "backend::hotcold::HotColdBackend::"
 KANI = [
